@@ -37,6 +37,7 @@ QUICK = [
     _k('coarse_storage_discounted', opt='coarse', kind='storage', T=4, eff=0.75, wacc=True, freq='d', coarse='2d'),
     _k('coarse_contract_ends_inside_unaligned', opt='coarse', kind='contract', T=6, win=(1, 4), ec=True),
     _k('coarse_transport_ends_inside_unaligned', opt='coarse', kind='transport', T=6, win=(0, 3), eff=0.5),
+    _k('coarse_contract_ends_inside_after_another_coarse_asset', opt='coarse', kind='contract', T=4, win=(0, 3), ec=True, other_coarse=True),
     _k('coarse_contract_straddles_start', opt='coarse', kind='contract', T=4, win=(-1, 5)),
     _k('coarse_transport', opt='coarse', kind='transport', T=4, eff=0.5),
     _k('coarse_storage_eff', opt='coarse', kind='storage', T=4, eff=0.75),
@@ -113,7 +114,7 @@ def mk_asset(D, kind, T, tg, nA, nB, opt_kw, ec=False, eff=None, win=None, costs
     raise KeyError(kind)
 
 
-def build_pair(D, opt, kind, T, freq='h', coarse='2h', period='2h', duration=None, wacc=False, **kw):
+def build_pair(D, opt, kind, T, freq='h', coarse='2h', period='2h', duration=None, wacc=False, other_coarse=False, **kw):
     eao = lift.import_eao()
     tg = shapes.grid(T, freq)
     nA, nB = shapes.nodes('A', 'B')
@@ -126,6 +127,10 @@ def build_pair(D, opt, kind, T, freq='h', coarse='2h', period='2h', duration=Non
     def pf(okw):
         a = mk_asset(D, kind, T, tg, nA, nB, okw, **kw)
         assets = [shapes.mk_market(D, 'mA', nA, T, 'p'), a]
+        if other_coarse:
+            # a second asset with the SAME coarser frequency living on the whole horizon, set up before the asset under test (whose window ends
+            # inside a coarse interval): both portfolios contain it as it is -- whatever it leaves on the shared grid must not reach 'as'
+            assets.insert(1, shapes.mk_market(D, 'oc', nA, T, 'q', ec=True, freq=coarse))
         if kind in ('transport', 'ext_transport', 'multicommodity'):
             assets.append(shapes.mk_market(D, 'mB', nB, T, 'q'))
         return eao.portfolio.Portfolio(assets)
